@@ -7,7 +7,8 @@ import time
 import traceback
 
 ROOT = os.path.dirname(os.path.dirname(os.path.abspath(__file__)))
-EVID = os.path.join(ROOT, 'evidence')
+# (VERIF_EVIDENCE_DIR: runs against a tree other than /repo -- seeded-change evaluations -- must not overwrite the committed evidence)
+EVID = os.environ.get('VERIF_EVIDENCE_DIR') or os.path.join(ROOT, 'evidence')
 OUT = os.path.join(ROOT, 'out')
 KNOWN = os.path.join(ROOT, 'known_findings.json')
 
